@@ -54,22 +54,53 @@ WHITELIST = frozenset([
 
 def split_parts(arg):
     # Break in pieces at undoubled semicolons and
-    # change double semicolons to singles:
-    i = 0
-    while i < len(arg):
-        m = ENTITY_RE.search(arg[i:])
-        if m is None:
-            break
-        arg = arg[:i + m.end()] + ';' + arg[i + m.end():]
-        i += m.end()
+    # change double semicolons to singles.  A semicolon that terminates
+    # a character entity is not a separator.  The pieces are cut out of
+    # the argument itself so that they keep their source position.
+    protected = {m.end() - 1 for m in ENTITY_RE.finditer(arg)}
 
-    arg = arg.replace(";;", "\0")
-    parts = arg.split(';')
-    parts = [p.replace("\0", ";") for p in parts]
+    parts = []
+    start = 0
+    i = 0
+    length = len(arg)
+    while i < length:
+        if arg[i] == ';' and i not in protected:
+            if i + 1 < length and arg[i + 1] == ';':
+                i += 2
+                continue
+            parts.append(_unescape_part(arg[start:i], start, protected))
+            start = i + 1
+        i += 1
+    parts.append(_unescape_part(arg[start:], start, protected))
+
     if len(parts) > 1 and not parts[-1].strip():
         del parts[-1]  # It ended in a semicolon
 
     return parts
+
+
+def _unescape_part(part, offset, protected):
+    if ';;' not in part:
+        return part
+
+    # Change double semicolons to singles (but leave a semicolon that
+    # terminates an entity alone).
+    text = []
+    i = 0
+    length = len(part)
+    while i < length:
+        c = part[i]
+        text.append(c)
+        if (c == ';' and offset + i not in protected
+                and i + 1 < length and part[i + 1] == ';'):
+            i += 1
+        i += 1
+
+    string = ''.join(text)
+    try:
+        return type(part)(string, part.pos, part.source, part.filename)
+    except (AttributeError, TypeError):
+        return string
 
 
 def parse_attributes(clause):
